@@ -89,7 +89,11 @@ void h_array(void)
     for(int ln = 0; ln <= AMAX; ln++)
     for(int rn = 0; rn <= AMAX; rn++)
 #endif
+#ifdef C16_LMIX_LO  /* obligation split only: the left T/F mixes C16_LMIX_LO .. C16_LMIX_HI */
+    for(unsigned lmix = C16_LMIX_LO; lmix <= C16_LMIX_HI; lmix++)
+#else
     for(unsigned lmix = 0; lmix < (LBOOL ? (1u << ln) : 1u); lmix++)
+#endif
     for(unsigned rmix = 0; rmix < (RBOOL ? (1u << rn) : 1u); rmix++) {
         /* exact-size objects (ln, rn are constants here; a malloc'ed byte object would lose the constant types) */
         rtosc_arg_val_t L[1 + ln], R[1 + rn];
